@@ -89,9 +89,9 @@ var props = map[string]*propCfg{
 		Title:    "optimisation and user-defined functions never change an expression's value (also concurrently; time live/delta not frozen)",
 		Quick:    tierCfg{Runs: 5000, Chunk: 160, RaceRuns: 320, DetRuns: 48, ShrinkSec: 60},
 		Thorough: tierCfg{Runs: 400000, Chunk: 2000, RaceRuns: 24000, DetRuns: 256, ShrinkSec: 240},
-		Rule: "one evaluation = one simulated pipeline run (1-4 workers sharing one compiled, optimised expression and its context pools) whose extract template is drawn from a tree generator over the registered function table (all helpers except load/lookup/haskey/color; arities 1-4; constant, dynamic {0}..{3}/{name}/{src}/{line}/{@} and nested arguments to depth 3), or calls a function loaded through the real funcs-file loader (1-3 generated definitions over scalar helpers, later ones calling earlier ones, comments, blank lines, backslash continuations), or is {time live|delta|now} with whole fake seconds passing between reads; templates that do not compile in both forms or panic on a line are redrawn (C08's subject); every emitted key is compared with a sequential un-optimised evaluation (funcs files: of the inlined tree built with builtins only); leg B re-runs the same worlds free-running under the race detector; " +
+		Rule: "one evaluation = one simulated pipeline run (1-4 workers sharing one compiled, optimised expression and its context pools) whose extract template is drawn from a tree generator over the registered function table (all helpers except load/lookup/haskey/color; arities 1-4; constant, dynamic {0}..{3}/{name}/{src}/{line}/{@} and nested arguments to depth 3), or calls a function loaded through the real funcs-file loader (1-3 generated definitions over scalar helpers, later ones calling earlier ones, comments, blank lines, backslash continuations), or is {time live|delta|now} with whole fake seconds passing between reads; templates that do not compile in both forms or panic on a line are redrawn (C08's subject); every emitted key is compared with a sequential un-optimised evaluation (funcs files: of the inlined tree built with builtins only); leg B re-runs the same worlds free-running under the race detector; one run in five is a command-line scenario (funcs file through --funcs under drawn global output flags vs the inlined template in `rare filter`; `rare expression` with and without --no-optimize, funcs file and inlined); " +
 			"distinct_nontrivial = distinct schedule hashes among runs with >= 1 matching line and >= 2 goroutines runnable at >= 1 decision",
-		Real:  []string{"pkg/expressions (compiler, optimiser, stage analysis)", "pkg/expressions/stdlib (all helpers)", "pkg/expressions/funcfile", "pkg/expressions/funclib", "pkg/slicepool", "pkg/extractor + batchers"},
+		Real:  []string{"pkg/expressions (compiler, optimiser, stage analysis)", "pkg/expressions/stdlib (all helpers)", "pkg/expressions/funcfile", "pkg/expressions/funclib", "pkg/slicepool", "pkg/extractor + batchers", "main.go start-up sequence (app.Before), cmd/filter.go, cmd/expressions.go (command-line leg)"},
 		Stubs: []string{"goroutine scheduling (tape; leg B: the real Go scheduler under -race)", "clock (synctest fake clock)", "stdin (scripted reader)", "read chunking/latency (fs seam)"},
 		Assume: []string{"interleavings inside one helper evaluation are not schedulable (no visible operation there): a pooled object handed to two workers at once shows up in leg B as a data race, not in leg A"},
 	},
@@ -99,11 +99,11 @@ var props = map[string]*propCfg{
 		Title:    "output ordering is a deterministic function of the aggregated data (order-independence clauses)",
 		Quick:    tierCfg{Runs: 1000, Chunk: 32, DetRuns: 24, ShrinkSec: 90},
 		Thorough: tierCfg{Runs: 50000, Chunk: 400, DetRuns: 128, ShrinkSec: 300},
-		Rule: "one evaluation = one scenario: a multiset of 2-8 (key, count) drawn from pools that stress the comparators (numbers in several spellings, weekday/month names and abbreviations, dates in several layouts, text, mixtures), one of histo/table/bars and one sort mode of {text, numeric, contextual, date, value} x {none, :asc, :desc, :reverse}, run in-process under 4-6 variants that change only the map-iteration salt, the arrival order of lines, schedule and worker count, division among files and read latencies (number of intermediate renders on the fake clock), plus one run with the reversed and one with the equivalent spelling; the row/column label sequences of the final snapshots must agree (or mirror); " +
+		Rule: "one evaluation = one scenario: a multiset of 2-8 (key, count) drawn from pools that stress the comparators (numbers in several spellings, weekday/month names and abbreviations, dates in several layouts, text, mixtures), one of histo/table/bars and one sort mode of {text, numeric, contextual, date, value} x {none, :asc, :desc, :reverse}, run in-process under 4-6 variants that change only the map-iteration salt, the arrival order of lines, schedule and worker count, division among files and read latencies (number of intermediate renders on the fake clock), plus one run with the reversed and one with the equivalent spelling; the row/column label sequences of the final snapshots must agree (or mirror); one scenario in three draws clean key families (distinct integers/decimals, weekday/month names, dates of one layout, distinct totals) with independent modes for rows and columns and compares the displayed order with the documented one; " +
 			"distinct_nontrivial = distinct combined schedule hashes among scenarios with >= 2 goroutines runnable at >= 1 decision",
 		Real:  []string{"main.cliMain + urfave/cli", "cmd/histo|tabulate|bargraph", "cmd/helpers/sorting.go", "pkg/aggregation/sorting", "pkg/aggregation", "pkg/multiterm renderers", "pkg/extractor + batchers"},
 		Stubs: []string{"goroutine scheduling (tape)", "clock (synctest fake clock)", "Go map iteration order in rare's packages (tape-salted permutation)", "stdin (scripted reader)", "read chunking/latency (fs seam)"},
-		Assume: []string{"only the order-independence clauses are decided (same data => same order; :reverse mirrors; equivalent spellings agree); that `numeric` means magnitude, `contextual` calendar position, `date` chronological and `value` larger-first is pure and not decided here"},
+		Assume: []string{"for arbitrary key mixtures only order-independence is decided (same data => same order; :reverse mirrors; equivalent spellings agree); what a mode means (magnitude, calendar position, chronological, larger-first) is decided for the clean key families only"},
 	},
 	"C03": {
 		Title:    "final aggregates equal the reference aggregation, independent of parallelism",
@@ -129,10 +129,10 @@ var props = map[string]*propCfg{
 		Title:    "follow mode delivers every appended byte exactly once, in order",
 		Quick:    tierCfg{Runs: 6000, Chunk: 200, DetRuns: 48, ShrinkSec: 60},
 		Thorough: tierCfg{Runs: 500000, Chunk: 2500, DetRuns: 256, ShrinkSec: 240},
-		Rule: "one evaluation = one simulated run of followreader.New(path, reopen, poll) (real notify.go/poller.go on real scratch files through the fs seam, fsnotify stubbed, poll delay on the fake clock) read by a simulated reader with drawn buffer sizes and latencies, against a simulated writer executing a drawn history of 1-12 operations over {append 1-40 unique bytes (sometimes split in two writes), pause 1ms-3s, remove-after-drain, re-create(+append)} x {notify, poll} x {reopen} x {tail}; odd-indexed runs add short reads and read latencies on the followed file; " +
+		Rule: "one evaluation = one simulated run of followreader.New(path, reopen, poll) (real notify.go/poller.go on real scratch files through the fs seam, fsnotify stubbed, poll delay on the fake clock) read by a simulated reader with drawn buffer sizes and latencies, against a simulated writer executing a drawn history of 1-12 operations over {append 1-40 unique bytes (sometimes split in two writes), pause 1ms-3s, remove-after-drain, re-create(+append)} x {notify, poll} x {reopen} x {tail}; odd-indexed runs add short reads and read latencies on the followed file; whether a re-created file takes over the inode number of the removed one is drawn from the tape (virtual identity behind os.SameFile); one run in four drives batchers.TailFilesToChan over 1-3 followed files with a draining consumer (line numbering, prefix of complete lines, time flush, channel close); " +
 			"distinct_nontrivial = distinct schedule hashes among runs with >= 1 appended byte and >= 2 goroutines runnable at >= 1 decision",
-		Real:  []string{"pkg/followreader (notify.go, poller.go)", "regular files of the kernel (append, unlink-while-open, re-create)"},
-		Stubs: []string{"github.com/fsnotify/fsnotify + inotify (stub: FIFO kernel queue, adjacent-identical coalescing, ignore-if-file-gone, unbuffered Events)", "goroutine scheduling (tape)", "clock (synctest fake clock)", "short reads / read latency (fs seam)"},
+		Real:  []string{"pkg/followreader (notify.go, poller.go)", "pkg/extractor/batchers (TailFilesToChan, time flush)", "pkg/readahead", "regular files of the kernel (append, unlink-while-open, re-create)"},
+		Stubs: []string{"github.com/fsnotify/fsnotify + inotify (stub: FIFO kernel queue, adjacent-identical coalescing, ignore-if-file-gone, unbuffered Events)", "goroutine scheduling (tape)", "clock (synctest fake clock)", "short reads / read latency (fs seam)", "file identity (os.SameFile): virtual inode numbers, reuse decided by the tape"},
 		Assume: []string{"the fsnotify stub is faithful to fsnotify v1.4.9 on inotify for create/write/remove on one watched directory: FIFO, no loss below queue overflow, coalescing of an event identical to the newest unread one, non-remove events dropped when the file is gone at processing time"},
 	},
 	"C05": {
@@ -149,7 +149,7 @@ var props = map[string]*propCfg{
 		Title:    "line splitting is exact and returned buffers are never overwritten",
 		Quick:    tierCfg{Runs: 25000, Chunk: 800, DetRuns: 48, ShrinkSec: 30},
 		Thorough: tierCfg{Runs: 1250000, Chunk: 20000, DetRuns: 256, ShrinkSec: 120},
-		Rule: "one evaluation = one scanner case: a byte string (length 0-200 over alphabets dense in \\n and \\r) scanned by readahead.NewImmediate (buffer 1-64 or 128KiB) or NewBuffered (2-64) through a scripted reader whose Read results (chunk size, (0,nil) stalls, data-with-EOF, and in odd-indexed runs one injected non-EOF error with or without data) are drawn from the tape; 16 cases per run index; " +
+		Rule: "one evaluation = one scanner case: a byte string (length 0-200 over alphabets dense in \\n and \\r) scanned by readahead.NewImmediate (buffer 1-64 or 128KiB) or NewBuffered (2-64) through a scripted reader whose Read results (chunk size, (0,nil) stalls, data-with-EOF, and in odd-indexed runs one injected non-EOF error with or without data) are drawn from the tape; one case in 24 is a long stream (100-400 short lines) under a reader that stalls with probability 30-80 % in runs of up to 150 and may hand out whole lines only; 16 cases per run index; " +
 			"distinct_nontrivial = distinct hashes of (scanner kind, buffer size, content, read script) among cases where at least one chunk boundary fell inside a line",
 		Real:  []string{"pkg/readahead"},
 		Stubs: []string{"the io.Reader under the scanner (scripted: chunking, stalls, EOF forms, injected error)"},
@@ -158,19 +158,19 @@ var props = map[string]*propCfg{
 		Title:    "every line read once, classified once",
 		Quick:    tierCfg{Runs: 8000, Chunk: 250, RaceRuns: 480, DetRuns: 48, ShrinkSec: 60},
 		Thorough: tierCfg{Runs: 600000, Chunk: 2000, RaceRuns: 24000, DetRuns: 256, ShrinkSec: 240},
-		Rule: "one evaluation = one simulated run of the real batchers+extractor pipeline (1-4 files or stdin, 0-40 lines each, drawn matcher/extract/ignore, batch/workers/readers/buffer) under a tape-drawn schedule, read chunking/stalls/latencies, and in odd-indexed runs one injected read error; " +
+		Rule: "one evaluation = one simulated run of the real batchers+extractor pipeline (1-4 files or stdin, 0-40 lines each, drawn matcher/extract/ignore, batch/workers/readers/buffer) under a tape-drawn schedule, read chunking/stalls/latencies, -z with mixed plain/gzip files, -I, shrunk scanner-buffer and index-pool constants, and in odd-indexed runs one injected read error or open failures; one run in five goes through `rare filter` in-process (summary, exit status, printed keys); leg B re-runs the API-level worlds free-running under the race detector with the same oracle; " +
 			"distinct_nontrivial = distinct schedule hashes (hash of the sequence of (goroutine, site) decisions) among runs that read >= 1 line and had >= 2 goroutines runnable at >= 1 decision",
 		Real:  []string{"pkg/extractor/batchers", "pkg/extractor", "pkg/readahead", "pkg/expressions", "pkg/matchers", "regular files of the kernel"},
-		Stubs: []string{"goroutine scheduling (tape)", "clock (synctest fake clock)", "stdin (scripted reader)", "read chunking/latency/error (fs seam)"},
+		Stubs: []string{"goroutine scheduling (tape; leg B: the real Go scheduler under -race)", "clock (synctest fake clock)", "stdin (scripted reader)", "read chunking/latency/error (fs seam)"},
 	},
 	"C02": {
 		Title:    "each match carries its true source, line number, text and groups",
 		Quick:    tierCfg{Runs: 8000, Chunk: 250, RaceRuns: 480, DetRuns: 48, ShrinkSec: 60},
 		Thorough: tierCfg{Runs: 600000, Chunk: 2000, RaceRuns: 24000, DetRuns: 256, ShrinkSec: 240},
-		Rule: "one evaluation = one simulated pipeline run whose consumer retains every Match until the run is over and only then reads Line/Indices/Source/LineNumber/Extracted; compared with stdlib regexp / a reference dissect / a sequential expression evaluation on private copies; " +
+		Rule: "one evaluation = one simulated pipeline run whose consumer retains every Match until the run is over and only then reads Line/Indices/Source/LineNumber/Extracted; compared with stdlib regexp / a reference dissect / a sequential expression evaluation on private copies (incl. -z, -I, lines with case-changing and invalid UTF-8 bytes); one run in five checks `rare --color filter` output with SGR codes stripped and `-l` prefixes; leg B re-runs the API-level worlds free-running under the race detector; " +
 			"distinct_nontrivial = distinct schedule hashes among runs that emitted >= 1 match and had >= 2 goroutines runnable at >= 1 decision",
-		Real:  []string{"pkg/extractor/batchers", "pkg/extractor", "pkg/readahead", "pkg/expressions", "pkg/matchers", "pkg/slicepool"},
-		Stubs: []string{"goroutine scheduling (tape)", "clock (synctest fake clock)", "stdin (scripted reader)", "read chunking/latency/error (fs seam)"},
+		Real:  []string{"pkg/extractor/batchers", "pkg/extractor", "pkg/readahead", "pkg/expressions", "pkg/matchers", "pkg/slicepool", "compress/gzip", "main.cliMain + cmd/filter.go (CLI variant)"},
+		Stubs: []string{"goroutine scheduling (tape; leg B: the real Go scheduler under -race)", "clock (synctest fake clock)", "stdin (scripted reader)", "read chunking/latency/error (fs seam)"},
 	},
 }
 
@@ -538,6 +538,7 @@ func cmdRun(prop string, args []string) int {
 	}
 	tier := os.Getenv("VERIF_TIER")
 	runsOverride := 0
+	detOverride := 0
 	keep := false
 	for i := 0; i < len(args); i++ {
 		switch args[i] {
@@ -549,6 +550,9 @@ func cmdRun(prop string, args []string) int {
 			runsOverride, _ = strconv.Atoi(args[i])
 		case "--keep":
 			keep = true
+		case "--det":
+			i++
+			detOverride, _ = strconv.Atoi(args[i])
 		}
 	}
 	if tier == "" {
@@ -563,6 +567,9 @@ func cmdRun(prop string, args []string) int {
 		if tc.RaceRuns > 0 {
 			tc.RaceRuns = runsOverride / 8
 		}
+	}
+	if detOverride > 0 {
+		tc.DetRuns = detOverride
 	}
 	seed := uint64(20260929)
 	if tier == "thorough" {
@@ -598,17 +605,19 @@ func cmdRun(prop string, args []string) int {
 	// determinism self-check: the first DetRuns indices again, each twice in-process plus a tape replay,
 	// in separate processes at GOMAXPROCS 1/4/16; compared below with the main batch
 	detChunk := (tc.DetRuns + 2) / 3
-	for k, mp := range []int{1, 4, 16} {
-		from, to := k*detChunk, (k+1)*detChunk
+	if detChunk > tc.Chunk {
+		detChunk = tc.Chunk // large self-checks (--det N) are spread over many worker processes
+	}
+	for k, from := 0, 0; from < tc.DetRuns && from < tc.Runs && detChunk > 0; k, from = k+1, from+detChunk {
+		to := from + detChunk
 		if to > tc.DetRuns {
 			to = tc.DetRuns
 		}
 		if to > tc.Runs {
 			to = tc.Runs
 		}
-		if from < to {
-			jobs = append(jobs, job{From: uint64(from), To: uint64(to), Mode: 1, Det: true, MaxProcs: mp, Bin: b.Bin, Out: filepath.Join(outDir, fmt.Sprintf("d-%d.jsonl", from))})
-		}
+		mp := []int{1, 4, 16}[k%3]
+		jobs = append(jobs, job{From: uint64(from), To: uint64(to), Mode: 1, Det: true, MaxProcs: mp, Bin: b.Bin, Out: filepath.Join(outDir, fmt.Sprintf("d-%d.jsonl", from))})
 	}
 	raceChunk := tc.Chunk / 4
 	if raceChunk < 10 {
